@@ -277,6 +277,11 @@ MUTANTS += [
 ]
 
 MUTANTS += [
+    ("c12_native_float64_regression", "C12", "solver.py",
+     "    z = np.ascontiguousarray(z, dtype=float)\n    profiles = tuple(np.ascontiguousarray(prof, dtype=float) for prof in profiles)\n", ""),
+]
+
+MUTANTS += [
     # ---- a NaN in one cell (comparisons of the form "error > tolerance" are blind to NaN: the finiteness monitor of the call path sees it)
     ("c06_nan_in_one_cell_when_three_levels", "C06", "solver.py", "    result = (grid, np.squeeze(conc), np.squeeze(flx))\n",
      "    if nlvls == 3:\n        conc[-1, 0, 0] = np.nan\n    result = (grid, np.squeeze(conc), np.squeeze(flx))\n"),
